@@ -964,6 +964,89 @@ theorem roundtrip_needs_names :
 theorem generate_needs_rootsOk :
     generateContent [.node ['f'] .function false []] = .raised .assertionError := by decide
 
+/-! ## one reader over time: lookups depend on the current `_links` only -/
+
+theorem runSteps_append (toInt : Str → Option Int) : ∀ (a b : List Step) (st : State),
+    runSteps toInt st (a ++ b) =
+      ((runSteps toInt (runSteps toInt st a).1 b).1,
+       (runSteps toInt st a).2 ++ (runSteps toInt (runSteps toInt st a).1 b).2)
+  | [], b, st => by simp [runSteps]
+  | s :: a, b, st => by
+    simp only [List.cons_append, runSteps, runSteps_append toInt a b]
+
+/-- lookups do not change the reader: the state after any history is the state after its
+`update` calls alone -/
+theorem runSteps_state_ignores_asks (toInt : Str → Option Int) : ∀ (steps : List Step) (st : State),
+    (runSteps toInt st steps).1 = (runSteps toInt st (steps.filter Step.isUpd)).1
+  | [], st => rfl
+  | .ask n :: ss, st => by
+    simp only [runSteps, step, List.filter_cons, Step.isUpd]
+    exact runSteps_state_ignores_asks toInt ss st
+  | .upd z d u b :: ss, st => by
+    simp only [runSteps, step, List.filter_cons, Step.isUpd, if_true]
+    exact runSteps_state_ignores_asks toInt ss _
+
+/-- **getLink_after_update** (history independence): whatever was loaded, failed to load, or
+was looked up before — including earlier lookups of the same name that found nothing — the answer
+of `getLink(name)` is the lookup in the links map produced by the `update` calls so far. -/
+theorem getLink_after_update (toInt : Str → Option Int) (st : State) (steps : List Step) (name : Str) :
+    (runSteps toInt st (steps ++ [.ask name])).2.getLast? =
+      some (.inr (getLink (runSteps toInt st (steps.filter Step.isUpd)).1.links name)) := by
+  rw [runSteps_append]
+  simp only [runSteps, step, List.getLast?_append, List.getLast?_singleton, Option.some_or]
+  rw [runSteps_state_ignores_asks]
+
+theorem Dict.get_update_of_get : ∀ (d : Dict) (links : Dict) (k : Str) (v : Link),
+    (d.map (·.1)).Nodup → Dict.get d k = some v → Dict.get (Dict.update links d) k = some v
+  | [], _, _, _, _, h => by simp [Dict.get, List.lookup] at h
+  | (k', v') :: d, links, k, v, hn, h => by
+    simp only [List.map_cons, List.nodup_cons] at hn
+    have hstep : Dict.update links ((k', v') :: d) = Dict.update (Dict.set links k' v') d := rfl
+    rw [hstep]
+    by_cases hk : k = k'
+    · subst hk
+      have hv : v' = v := by simpa [Dict.get, List.lookup] using h
+      subst hv
+      rw [Dict.get_update_not_mem d _ k, Dict.get_set_self]
+      intro kv hkv heq
+      exact hn.1 (List.mem_map.mpr ⟨kv, hkv, heq⟩)
+    · have hb : (k == k') = false := by simpa using hk
+      have h' : Dict.get d k = some v := by simpa [Dict.get, List.lookup, hb] using h
+      exact Dict.get_update_of_get d _ k v hn.2 h'
+
+/-- **update_latest_wins**: what the most recent successful load says about a name is what the
+reader holds for it afterwards, whatever `_links` held before (and hence, by
+`getLink_after_update`, what every later `getLink` answers until another load redefines it). -/
+theorem update_latest_wins (unzip : Bytes → Option Bytes) (decode : Bytes → Option Str)
+    (toInt : Str → Option Int) (st : State) (url base : Str) (b : Nat) (bs : Bytes)
+    (hb : rsplitSlash url = some base) (name : Str) (v : Link)
+    (hdef : (Dict.update [] (goodEntries toInt base
+      (splitlines (getPayload unzip decode base (b :: bs)).2))).get name = some v) :
+    (update unzip decode toInt st url (some (b :: bs))).1.links.get name = some v := by
+  rw [update_spec unzip decode toInt st url base b bs hb]
+  exact Dict.get_update_of_get _ _ _ _ (by simpa using Dict.nodup_update _ [] (by simp)) hdef
+
+/-- a load that fails as a whole leaves every earlier answer in place -/
+theorem failed_update_keeps_links (unzip : Bytes → Option Bytes) (decode : Bytes → Option Str)
+    (toInt : Str → Option Int) (st : State) (url base : Str) (b : Nat) (bs : Bytes)
+    (hb : rsplitSlash url = some base)
+    (hfail : unzip (strippedPayload (b :: bs)) = none ∨
+      ∃ raw, unzip (strippedPayload (b :: bs)) = some raw ∧ decode raw = none) :
+    (update unzip decode toInt st url (some (b :: bs))).1.links = st.links := by
+  obtain ⟨msg, h⟩ := update_unusable_reported unzip decode toInt st url base b bs hb hfail
+  rw [h]
+
+-- non-vacuity (the seeded memoisation scenario): ask `a` (nothing loaded: None), a load that
+-- fails, ask again, the load that defines `a`, ask again → the last answer is the link
+example :
+    (runSteps pyInt ⟨[], []⟩
+      [.ask ['a'],
+       .upd (fun _ => none) (fun _ => none) "h/objects.inv".toList (some [120]),
+       .ask ['a'],
+       .upd (fun _ => some []) (fun _ => some exGood) "h/objects.inv".toList (some [120]),
+       .ask ['a']]).2 =
+    [.inr none, .inl (.ok ()), .inr none, .inl (.ok ()), .inr (some "h/l".toList)] := by decide
+
 /-! ## the whole file: `update` on the bytes `generate` wrote -/
 
 theorem splitFirstNL_append : ∀ (f r : Bytes), 10 ∉ f → splitFirstNL (f ++ 10 :: r) = some (f, r)
